@@ -23,8 +23,218 @@ fn reference(a: u32, b: u32) -> Option<Ordering> {
     }
 }
 
+/// RFC 1982 "i2 is newer than i1"
+fn newer(i1: u32, i2: u32) -> Option<bool> {
+    reference(i1, i2).map(|o| o == Ordering::Less)
+}
+
+/// Use site: the direction check of zone diffs (zonetree::types). A diff from
+/// serial `start` to serial `end` exists iff `end` is newer by RFC 1982.
+fn part_diff_direction(ctx: &Ctx) -> u64 {
+    use domain::base::{Name, Ttl};
+    use domain::rdata::{Soa, ZoneRecordData};
+    use domain::zonetree::types::InMemoryZoneDiffBuilder;
+    use domain::zonetree::Rrset;
+    use std::str::FromStr;
+    let bases: [u32; 14] = [0, 1, 0x7FFF_FFFF, 0x8000_0000, 0x8000_0001, 0xFFFF_FFFF, 0xFFFF_FFFE, 0x1234_5679, 0xDEAD_BEEF, 0x7FFF_FFFE, 0x4000_0001, 0xC000_0003, 0x00FF_FF01, 0xFF00_00FF];
+    let mut offsets: Vec<u32> = (0..65536u32).map(|k| k.wrapping_mul(65537)).collect();
+    for c in [0u32, 0x8000_0000, 0xFFFF_FFFF] {
+        for d in 0..=4u32 {
+            offsets.push(c.wrapping_add(d).wrapping_sub(2));
+        }
+    }
+    offsets.sort();
+    offsets.dedup();
+    let apex: Name<bytes::Bytes> = Name::from_str("z.").unwrap();
+    let soa = |serial: u32| {
+        let mut r = Rrset::new(domain::base::iana::Rtype::SOA, Ttl::from_secs(60));
+        r.push_data(ZoneRecordData::Soa(Soa::new(apex.clone(), apex.clone(), serial.into(), Ttl::from_secs(1), Ttl::from_secs(1), Ttl::from_secs(1), Ttl::from_secs(1))));
+        r.into_shared()
+    };
+    let n = std::sync::atomic::AtomicU64::new(0);
+    bases.par_iter().for_each(|&b| {
+        for &d in &offsets {
+            let e = b.wrapping_add(d);
+            let r = guard(|| {
+                let mut bld = InMemoryZoneDiffBuilder::new();
+                bld.remove(apex.clone(), domain::base::iana::Rtype::SOA, soa(b));
+                bld.add(apex.clone(), domain::base::iana::Rtype::SOA, soa(e));
+                bld.build().map(|d| (d.start_serial.into_int(), d.end_serial.into_int())).map_err(|e| format!("{e:?}"))
+            });
+            n.fetch_add(1, AO::Relaxed);
+            let case = || json!({"start": b, "end": e, "part": "zone-diff"});
+            match (r, newer(b, e)) {
+                (Err(p), _) => {
+                    ctx.violation(&format!("C17|zone-diff|panic|{}", panic_class(&p)), &p, case());
+                }
+                (Ok(Ok((s0, e0))), want) => {
+                    if want == Some(false) {
+                        ctx.violation("C17|zone-diff|diff-made-although-end-is-not-newer", &format!("a zone diff from serial {b} to serial {e} was built although {e} is not newer than {b} (RFC 1982)"), case());
+                    } else if (s0, e0) != (b, e) {
+                        ctx.violation("C17|zone-diff|serials-of-the-diff-differ", &format!("diff {b}->{e} reports {s0}->{e0}"), case());
+                    }
+                }
+                (Ok(Err(err)), want) => {
+                    if want == Some(true) {
+                        ctx.violation("C17|zone-diff|refused-although-end-is-newer", &format!("a zone diff from serial {b} to the newer serial {e} was refused: {err}"), case());
+                    }
+                }
+            }
+        }
+    });
+    n.load(AO::Relaxed)
+}
+
+fn days_from_civil(y: i64, m: i64, d: i64) -> i64 {
+    // proleptic Gregorian calendar, days since 1970-01-01
+    let y = if m <= 2 { y - 1 } else { y };
+    let era = if y >= 0 { y } else { y - 399 } / 400;
+    let yoe = y - era * 400;
+    let doy = (153 * (if m > 2 { m - 3 } else { m + 9 }) + 2) / 5 + d - 1;
+    let doe = yoe * 365 + yoe / 4 - yoe / 100 + doy;
+    era * 146097 + doe - 719468
+}
+
+fn days_in_month(y: i64, m: i64) -> i64 {
+    match m {
+        1 | 3 | 5 | 7 | 8 | 10 | 12 => 31,
+        4 | 6 | 9 | 11 => 30,
+        2 => {
+            if (y % 4 == 0 && y % 100 != 0) || y % 400 == 0 {
+                29
+            } else {
+                28
+            }
+        }
+        _ => 0,
+    }
+}
+
+/// Use site: signature times in presentation format (RFC 4034 3.2): integer
+/// or YYYYMMDDHHmmSS, seconds since the epoch modulo 2^32.
+fn part_text_forms(ctx: &Ctx) -> u64 {
+    use domain::base::scan::IterScanner;
+    use std::str::FromStr;
+    // (text, expected: Some(value) accept with that value / None reject)
+    let mut cases: Vec<(String, Option<u32>)> = Vec::new();
+    let mut add_date = |y: i64, mo: i64, d: i64, h: i64, mi: i64, s: i64| {
+        let valid = (1..=12).contains(&mo) && d >= 1 && d <= days_in_month(y, mo) && (0..24).contains(&h) && (0..60).contains(&mi) && (0..60).contains(&s);
+        let text = format!("{y:04}{mo:02}{d:02}{h:02}{mi:02}{s:02}");
+        if text.len() != 14 {
+            return;
+        }
+        let secs = days_from_civil(y, mo, d) * 86400 + h * 3600 + mi * 60 + s;
+        cases.push((text, if valid { Some(secs.rem_euclid(1i64 << 32) as u32) } else { None }));
+    };
+    // every day 1970..=2500 at the first and the last second
+    for y in 1970..=2500 {
+        for mo in 1..=12 {
+            for d in 1..=days_in_month(y, mo) {
+                add_date(y, mo, d, 0, 0, 0);
+                add_date(y, mo, d, 23, 59, 59);
+            }
+        }
+    }
+    // every second around k * 2^31
+    for k in 1..=8i64 {
+        for off in -3..=3i64 {
+            let t = k * (1i64 << 31) + off;
+            let days = t.div_euclid(86400);
+            let rem = t.rem_euclid(86400);
+            // civil from days
+            let z = days + 719468;
+            let era = z.div_euclid(146097);
+            let doe = z - era * 146097;
+            let yoe = (doe - doe / 1460 + doe / 36524 - doe / 146096) / 365;
+            let doy = doe - (365 * yoe + yoe / 4 - yoe / 100);
+            let mp = (5 * doy + 2) / 153;
+            let d = doy - (153 * mp + 2) / 5 + 1;
+            let m = if mp < 10 { mp + 3 } else { mp - 9 };
+            let y = yoe + era * 400 + if m <= 2 { 1 } else { 0 };
+            add_date(y, m, d, rem / 3600, rem % 3600 / 60, rem % 60);
+        }
+    }
+    for y in (1971..=9998).step_by(97) {
+        add_date(y, 1, 1, 0, 0, 0);
+        add_date(y, 12, 31, 23, 59, 59);
+    }
+    // (the last days of year 9999 are outside jiff's timestamp range: not asked for)
+    // calendar validity: all month x day combinations of a leap and a non-leap year, time edges
+    for y in [2023i64, 2024, 2100, 2400] {
+        for mo in 0..=13 {
+            for d in 0..=32 {
+                add_date(y, mo, d, 12, 0, 0);
+            }
+        }
+    }
+    for (h, mi, s) in [(24, 0, 0), (23, 60, 0), (0, 0, 0), (23, 59, 59), (12, 59, 0)] {
+        add_date(2024, 6, 15, h, mi, s);
+    }
+    // integer forms
+    for v in [0u64, 1, 9, 10, 0x7FFF_FFFF, 0x8000_0000, 0xFFFF_FFFE, 0xFFFF_FFFF, 0x1_0000_0000, 0x1_0000_0001, 9_999_999_999, 10_000_000_000, 99_999_999_999_999] {
+        let text = format!("{v}");
+        if text.len() == 14 {
+            continue; // that is a date form
+        }
+        cases.push((text, if v <= 0xFFFF_FFFF { Some(v as u32) } else { None }));
+    }
+    let n = cases.len() as u64 * 2;
+    cases.par_iter().for_each(|(text, want)| {
+        let r1 = guard(|| domain::rdata::dnssec::Timestamp::from_str(text).map(|t| t.into_int()).ok());
+        let r2 = guard(|| {
+            let mut sc = IterScanner::<_, Vec<u8>>::new([text.as_str()].into_iter());
+            domain::rdata::dnssec::Timestamp::scan(&mut sc).map(|t| t.into_int()).ok()
+        });
+        for (route, r) in [("from_str", r1), ("scan", r2)] {
+            let case = || json!({"text": text, "route": route, "part": "signature-time-text"});
+            let kind = if text.len() == 14 { "date" } else { "integer" };
+            match (r, want) {
+                (Err(p), _) => {
+                    ctx.violation(&format!("C17|sigtime-text|{route}|panic|{}", panic_class(&p)), &p, case());
+                }
+                (Ok(Some(got)), Some(w)) => {
+                    if got != *w {
+                        ctx.violation(&format!("C17|sigtime-text|{route}|{kind}|value-is-not-seconds-since-epoch-mod-2^32"), &format!("{text} read as {got}, expected {w}"), case());
+                    }
+                }
+                (Ok(Some(got)), None) => {
+                    ctx.violation(&format!("C17|sigtime-text|{route}|{kind}|accepted-invalid"), &format!("{text} is not a valid signature time but was read as {got}"), case());
+                }
+                (Ok(None), Some(w)) => {
+                    ctx.violation(&format!("C17|sigtime-text|{route}|{kind}|rejected-valid"), &format!("{text} (= {w}) was rejected"), case());
+                }
+                (Ok(None), None) => {}
+            }
+        }
+    });
+    n
+}
+
 fn main() {
     let ctx = Ctx::new("C17", "exploration");
+    if let Some(path) = &ctx.replay {
+        // replay one stored case without the sweep
+        use std::str::FromStr;
+        let v: serde_json::Value = serde_json::from_str(&std::fs::read_to_string(path).expect("replay file")).expect("json");
+        let c = &v["case"];
+        println!("replaying {}", v["signature"]);
+        if let Some(t) = c["text"].as_str() {
+            println!("Timestamp::from_str({t:?}) = {:?}", guard(|| Timestamp::from_str(t).map(|x| x.into_int()).ok()));
+        } else if c["part"] == "zone-diff" {
+            let (b, e) = (c["start"].as_u64().unwrap() as u32, c["end"].as_u64().unwrap() as u32);
+            println!("RFC 1982: end newer than start = {:?}; Serial({b}).partial_cmp(Serial({e})) = {:?}", newer(b, e), Serial::from(b).partial_cmp(&Serial::from(e)));
+            println!("(the diff itself is rebuilt by the zone-diff part of the check: run the check to see the class again)");
+        } else {
+            let b = c["base"].as_u64().unwrap() as u32;
+            let o = c["other"].as_u64().or(c["addend"].as_u64()).unwrap() as u32;
+            println!("Serial({b}).partial_cmp(Serial({o})) = {:?}, reverse {:?}, RFC 1982 {:?}", Serial::from(b).partial_cmp(&Serial::from(o)), Serial::from(o).partial_cmp(&Serial::from(b)), reference(b, o));
+            println!("Timestamp: {:?}", Timestamp::from(b).partial_cmp(&Timestamp::from(o)));
+            println!("Serial({b}).add({o}) = {:?}", guard(|| Serial::from(b).add(o).into_int()));
+            let st = Timestamp::from(o).to_system_time(std::time::UNIX_EPOCH + std::time::Duration::from_secs((1u64 << 32) + b as u64));
+            println!("Timestamp({o}).to_system_time(2^32+{b}) = {:?}", st.duration_since(std::time::UNIX_EPOCH).map(|d| d.as_secs()));
+        }
+        ctx.finish_quiet();
+    }
     let bases: Vec<u32> = if ctx.quick() {
         vec![0x7FFF_FFFF, 0xFFFF_FFFE]
     } else {
@@ -39,7 +249,9 @@ fn main() {
     let outcomes = [AtomicU64::new(0), AtomicU64::new(0), AtomicU64::new(0), AtomicU64::new(0)];
     let stats = Stats::new();
     const CHUNK: u64 = 1 << 22;
-    for &b in &bases {
+    for (bi, &b) in bases.iter().enumerate() {
+        // quick: one era per base (both eras are swept, over different bases); thorough: both for every base
+        let eras: Vec<u64> = if ctx.quick() { vec![(bi as u64 + 1) % 2] } else { vec![0, 1] };
         (0..(1u64 << 32) / CHUNK).into_par_iter().for_each(|ch| {
             let mut local_out = [0u64; 4];
             let mut viol: Option<(String, String, u32)> = None;
@@ -80,6 +292,27 @@ fn main() {
                 let tc = Timestamp::from(c);
                 if tb.partial_cmp(&tc) != r || (tb < tc) != (r == Some(Ordering::Less)) || (tb > tc) != (r == Some(Ordering::Greater)) {
                     viol.get_or_insert(("timestamp-cmp".into(), format!("Timestamp partial_cmp({b},{c}) != RFC 1982 {r:?}"), c));
+                }
+                // Timestamp::to_system_time: the documented requirements - (1) the result is congruent
+                // to the timestamp modulo 2^32, (2) its distance from the reference fits an i32 -
+                // for references in the first two 2^32-second eras (the first one has no earlier era to fall back to) whose low part is the base
+                for era in eras.iter().cloned() {
+                    let refsecs = era * (1u64 << 32) + b as u64;
+                    let st = tc.to_system_time(std::time::UNIX_EPOCH + std::time::Duration::from_secs(refsecs));
+                    let got = st.duration_since(std::time::UNIX_EPOCH).map(|d| d.as_secs()).unwrap_or(u64::MAX);
+                    if got & 0xFFFF_FFFF != c as u64 {
+                        viol.get_or_insert(("to_system_time-not-congruent".into(), format!("Timestamp({c}).to_system_time(reference {refsecs}) = {got}, not congruent to {c} mod 2^32"), c));
+                    }
+                    let dist = got as i128 - refsecs as i128;
+                    let fits = dist >= i32::MIN as i128 && dist <= i32::MAX as i128 + 1; // exactly 2^31 apart has no closer choice
+                    // before the epoch there is no SystemTime to return: only demanded when a candidate >= 0 exists
+                    let achievable = era > 0 || {
+                        let d0 = c as i128 - refsecs as i128;
+                        d0 >= i32::MIN as i128 && d0 <= i32::MAX as i128 + 1 || d0 + (1i128 << 32) <= i32::MAX as i128 + 1
+                    };
+                    if achievable && !fits {
+                        viol.get_or_insert(("to_system_time-too-far-from-reference".into(), format!("Timestamp({c}).to_system_time(reference {refsecs}) = {got}: distance {dist} does not fit an i32"), c));
+                    }
                 }
                 // invariance under adding the same amount to both sides
                 for k in ks {
@@ -124,6 +357,9 @@ fn main() {
             evals.fetch_add(1, AO::Relaxed);
         }
     }
+    let (diff_cases, text_cases) = (part_diff_direction(&ctx), part_text_forms(&ctx));
+    evals.fetch_add(diff_cases + text_cases, AO::Relaxed);
+    nontriv.fetch_add(diff_cases + text_cases, AO::Relaxed);
     let e = evals.load(AO::Relaxed);
     ctx.finish(
         json!({
@@ -132,6 +368,7 @@ fn main() {
             "rule": "pairs (base, c) for every c in 0..2^32 per base; every pair is distinct by construction; non-trivial = c != base (counted per chunk)",
             "exhaustive": true,
             "bases": bases,
+            "use_sites": {"zone_diff_direction_cases": diff_cases, "signature_time_text_cases": text_cases, "rule": "zone diffs: InMemoryZoneDiffBuilder::build for start = base, end = base + d over 14 bases x a dense offset grid (every multiple of 65537 and +-2 around 0, 2^31, 2^32): a diff is made iff end is newer than start by RFC 1982 (2^31 apart: either), with start/end serials as given; signature times in text: every calendar day 1970-01-01..2500-12-31 at 00:00:00 and 23:59:59, every second +-3 around k*2^31 (k = 1..8), Jan 1/Dec 31 of years 1971..9998 step 97, all month x day combinations of a leap and a non-leap year, hour/minute/second edge values, and integer forms at the u32 boundaries, through Timestamp::from_str and Timestamp::scan: value == seconds since the epoch mod 2^32 (own civil-date arithmetic), invalid dates rejected, integers above 2^32-1 rejected; Timestamp::to_system_time for references in the first two 2^32-second eras for all 2^32 timestamps"},
             "outcome_counts": {"less": outcomes[0].load(AO::Relaxed), "equal": outcomes[1].load(AO::Relaxed), "greater": outcomes[2].load(AO::Relaxed), "undefined": outcomes[3].load(AO::Relaxed)},
             "samples": stats.samples(),
         }),
